@@ -33,7 +33,7 @@ fn state_key(st: &Value) -> String {
 }
 
 fn outcome_json(o: &Outcome) -> Value {
-    json!({"res": o.res, "evs": o.evs, "outs": o.outs})
+    json!({"res": o.res, "evs": o.evs, "outs": o.outs, "w": o.warn_class()})
 }
 
 /// Compare the real world with the spec's post-state; returns (class, field, expected, got).
@@ -54,12 +54,16 @@ fn compare(w: &World, o: &Outcome, exp_out: &Value, exp_st: &Value) -> Option<(S
     if !w.malformed.is_empty() {
         return Some(("malformed".into(), "malformed".into(), json!([]), json!(w.malformed)));
     }
+    // the class of warning the call reported (no property speaks about warnings: a deviation here is drift)
+    if !exp_out["w"].is_null() && canon(&got_out["w"]) != canon(&exp_out["w"]) {
+        return Some(("warning".into(), "w".into(), exp_out["w"].clone(), got_out["w"].clone()));
+    }
     let got = w.proj();
     // the public deadline Connection::needs_tick() of both endpoints
     if canon(&got["nt"]) != canon(&exp_out["nt"]) {
         return Some(("deadline".into(), "nt".into(), exp_out["nt"].clone(), got["nt"].clone()));
     }
-    for f in ["del", "ready", "answered", "net", "sub", "snv", "scl"] {
+    for f in ["del", "ready", "answered", "net", "sub", "snv", "scl", "bnd"] {
         if canon(&got[f]) != canon(&exp_st[f]) {
             return Some(("observable".into(), f.into(), exp_st[f].clone(), got[f].clone()));
         }
@@ -261,6 +265,10 @@ fn replay(args: &[String]) -> i32 {
         };
         transitions += 1;
         *act_counts.entry(act["a"].as_str().unwrap_or("?").to_string()).or_insert(0) += 1;
+        if act["k"].as_u64().unwrap_or(0) != 0 {
+            // calls during which the send callback refused a datagram
+            *act_counts.entry(format!("{}!callback", act["a"].as_str().unwrap_or("?"))).or_insert(0) += 1;
+        }
         let mut w = base.vclone();
         vh_common::set_case(&json!({"path": path_of(&paths, from_idx), "act": act}).to_string());
         vh_common::arm(5_000);
